@@ -15,4 +15,8 @@ Definition pinned_fingerprints : list (string * string) :=
   ("field_BH_circle.BHJM_circle", "7e22ab16a317fae3ca58f2fb1b3742e7");
   ("field_wrap_BH.getBH_level1", "339d706bf3e8e6db6618ebd20dfd5673");
   ("utility.cart_to_cyl_coordinates", "758b462237e80e8f4a0ac715b9056a2b");
-  ("utility.cyl_field_to_cart", "7e9db6dc6bbb8da022ee7d220722b217")].
+  ("utility.cyl_field_to_cart", "7e9db6dc6bbb8da022ee7d220722b217");
+  (* not modelled, pinned as whole modules (every top-level function): an edit must be reviewed and re-pinned *)
+  ("field_BH_cylinder_segment.<all 161 functions>", "b845ea13de9e310363b4710c913793d4");
+  ("special_el3.<all 4 functions>", "f06dd37fe10026518a2c19ff7efe7770");
+  ("special_cel.<all 6 functions>", "3413733ee6d997671e104bd0c620f42e")].
